@@ -1,6 +1,7 @@
 import CelmaVerif.Lemmas.LogHist
 import CelmaVerif.Lemmas.LogPolicy
 import CelmaVerif.Lemmas.LogClasses
+import CelmaVerif.Lemmas.LogWorldOps
 /-
   C14 — a log message reaches exactly the destinations whose filters it passes.
   Property theorems only; helper lemmas are in Lemmas/Log*.lean.  The model (Model/Log.lean)
@@ -209,10 +210,16 @@ theorem C14_classes_reject (list : List Char)
     `F.setting t` is the filter of type `t` currently in effect:
     * no filter of that type yet — the new filter is in effect afterwards, the other types are
       untouched (and a throwing constructor changes nothing);
-    * the type is set a second time — policy `ignore` keeps the first filter (the whole object is
-      unchanged), policy `replace` puts the last one in effect and leaves the other types alone
+    * the type is set a second time — policy `ignore` keeps the first filter (the filter list
+      `mFilters` is unchanged, so is what the object accepts; only the cached pointer
+      `mpLevelFilter` consulted by the pre-check is re-pointed to the existing filter of that type
+      when it is a level filter — see the example `ignore re-points the cached level filter`
+      below), policy `replace` puts the last one in effect and leaves the other types alone
       (a throwing constructor leaves the first in place), policy `exception` throws and changes
-      nothing. -/
+      nothing at all.
+    This is the statement about one `Filters` object and an arbitrary policy argument; that the
+    argument is the configured policy and which object of the world is meant is
+    `C14_setFilter_means` / `C14_duplicate_policy_on_the_world`. -/
 theorem C14_duplicate_policy (F : Filters) (hF : F.Inv) (t : FType) (mk : Res Filter) :
     (F.setting t = none →
       (∀ nf, mk = .ok nf → nf.ftype = .ok t →
@@ -263,6 +270,85 @@ theorem C14_policy_is_the_configured_one (ops : List Op) (hops : ∀ op ∈ ops,
   obtain ⟨w, h1, _, h3⟩ := World.run_inv ops World.init World.init_inv hops
   exact ⟨w, h1, h3⟩
 
+/-- **What `getLog( name)->maxLevel( …)` / `getLog( name)->getDestination( d)->classes( …)` … do
+    to the world**, after every history.  `w.Designates tgt F put` (declarative, see
+    `Lemmas/LogWorldOps.lean`) says that the target names the `Filters` object `F`: the own
+    filters of the *first* log with that name, resp. those of the *first* destination with that
+    name of that log, and that `put F'` is `w` with exactly this one object replaced (`List.set`
+    at the two indices; policy, ids, names, all other logs, destinations, filters and every
+    received message are the same; `put F = w`).
+    * If the target designates `F`: `F` is a reachable object (`F.Inv`, the hypothesis of
+      `C14_duplicate_policy`), the call is `checkSetFilter` on `F` with **the policy configured
+      last in the history** (`lastPolicy ops .ignore`), the world afterwards is `put F'` and the
+      call's exception (if any) is the one `checkSetFilter` left with.
+    * If it designates nothing (no such log, no such destination): the world is unchanged and the
+      call reports "no log" resp. throws the `runtime_error` of `getDestination`. -/
+theorem C14_setFilter_means (ops : List Op) (hops : ∀ op ∈ ops, op.Valid) (tgt : Target)
+    (s : FilterSpec) :
+    ∃ w, World.init.run ops = .ok w ∧
+      (∀ F put, w.Designates tgt F put →
+        F.Inv ∧ put F = w ∧
+        ∃ F' exc, F.checkSet (lastPolicy ops .ignore) s.ftype s.mk = .ok (F', exc) ∧
+          w.setFilter tgt s = .ok (put F', SetResult.ofExc exc)) ∧
+      ((∀ F put, ¬ w.Designates tgt F put) →
+        w.setFilter tgt s = .ok (w, .nolog) ∨ w.setFilter tgt s = .ok (w, .threw .runtime_error)) := by
+  obtain ⟨w, h1, h2, h3⟩ := World.run_inv ops World.init World.init_inv hops
+  refine ⟨w, h1, ?_, World.setFilter_undesignated w tgt s⟩
+  intro F put hd
+  obtain ⟨F', exc, g1, _, g3⟩ := World.setFilter_designated w tgt s F put h2 hd
+  rw [h3] at g1
+  exact ⟨hd.inv h2, hd.put_self, F', exc, g1, g3⟩
+
+/-- **The configured policy decides, on the world**: `C14_setFilter_means` composed with
+    `C14_duplicate_policy` and `C14_policy_is_the_configured_one`.  After every history, when a
+    filter type that is already set on the designated log / destination (`F.setting … = some g`)
+    is set again with a parameter from which a filter `nf` can be built:
+    * last configured policy `ignore` (also when none was configured): the call returns normally,
+      the object's filter list — hence what it accepts — is the old one;
+    * `exception`: the call throws `runtime_error`, the world is unchanged;
+    * `replace`: the call returns normally, `nf` is in effect for that type on that object, the
+      other types keep their filters;
+    and in each case nothing but the designated object changes (`put`). -/
+theorem C14_duplicate_policy_on_the_world (ops : List Op) (hops : ∀ op ∈ ops, op.Valid)
+    (tgt : Target) (s : FilterSpec) (nf g : Filter) (hmk : s.mk = .ok nf) :
+    ∃ w, World.init.run ops = .ok w ∧
+      ∀ F put, w.Designates tgt F put → F.setting s.ftype = some g →
+        (lastPolicy ops .ignore = .ignore →
+          ∃ F', w.setFilter tgt s = .ok (put F', .done) ∧ F'.filters = F.filters) ∧
+        (lastPolicy ops .ignore = .exception →
+          w.setFilter tgt s = .ok (w, .threw .runtime_error)) ∧
+        (lastPolicy ops .ignore = .replace →
+          ∃ F', w.setFilter tgt s = .ok (put F', .done) ∧ F'.setting s.ftype = some nf ∧
+            ∀ t', t' ≠ s.ftype → F'.setting t' = F.setting t') := by
+  obtain ⟨w, h1, h2, h3⟩ := World.run_inv ops World.init World.init_inv hops
+  refine ⟨w, h1, ?_⟩
+  intro F put hd hg
+  obtain ⟨F', exc, g1, _, g3⟩ := World.setFilter_designated w tgt s F put h2 hd
+  rw [h3] at g1
+  change F.checkSet (lastPolicy ops .ignore) s.ftype s.mk = .ok (F', exc) at g1
+  obtain ⟨a1, a2, a3, _⟩ := (C14_duplicate_policy F (hd.inv h2) s.ftype s.mk).2 g hg
+  refine ⟨?_, ?_, ?_⟩
+  · intro hp
+    rw [hp] at g1
+    obtain ⟨F'', b1, b2⟩ := a1
+    rw [b1] at g1
+    have he : F' = F'' ∧ exc = none := by cases g1; exact ⟨rfl, rfl⟩
+    obtain ⟨rfl, rfl⟩ := he
+    exact ⟨F', g3, b2⟩
+  · intro hp
+    rw [hp, a2] at g1
+    have he : F' = F ∧ exc = some .runtime_error := by cases g1; exact ⟨rfl, rfl⟩
+    obtain ⟨rfl, rfl⟩ := he
+    rw [hd.put_self] at g3
+    exact g3
+  · intro hp
+    rw [hp] at g1
+    obtain ⟨F'', b1, b2, b3⟩ := a3 nf hmk ((FilterSpec.mk_spec s).2 nf hmk).2.2
+    rw [b1] at g1
+    have he : F' = F'' ∧ exc = none := by cases g1; exact ⟨rfl, rfl⟩
+    obtain ⟨rfl, rfl⟩ := he
+    exact ⟨F', g3, b2, b3⟩
+
 /-! ### the level pre-check -/
 
 /-- After every history, for every id set and every message: `discard_by_level( ids, level)`
@@ -295,9 +381,12 @@ theorem C14_precheck_sound_by_name (ops : List Op) (hops : ∀ op ∈ ops, op.Va
   refine ⟨b, hb, fun hbt => ?_⟩
   rw [World.logName_eq w name m h2 hm, hs hbt]
 
-/-- The LOG_LEVEL macro (pre-check, then send) loses nothing: whenever it returns normally the
+/-- The LOG_LEVEL macro (pre-check, then send), any id set: whenever it returns normally the
     state is exactly what the plain `Logging::log( ids, msg)` produces; when it throws nothing was
-    delivered. -/
+    delivered.  This alone does NOT say that the macro delivers what `log( ids, msg)` delivers:
+    with an id set that contains a log's id and another bit it throws (`C14_macro_exact`,
+    `C14_macro_two_ids_throws`) — log_macros.hpp: "can only be used with a single log id/name,
+    not with a set of log ids".  For the documented use see `C14_macro_single_id`. -/
 theorem C14_macro_delivers_like_send (ops : List Op) (hops : ∀ op ∈ ops, op.Valid) (ids : Nat)
     (m : Msg) (hm : m.Valid) :
     ∃ w w' exc, World.init.run ops = .ok w ∧ w.macroSend ids m = .ok (w', exc) ∧
@@ -327,6 +416,52 @@ theorem C14_macro_delivers_like_send (ops : List Op) (hops : ∀ op ∈ ops, op.
         · unfold World.macroSend; rw [hb]; simp [h0, World.logIds_eq w ids m h2 hm]
         · intro _; rfl
         · intro c; exact absurd rfl c
+
+/-- **LOG_LEVEL used as documented** (one log id, i.e. one bit — whether a log with that id exists
+    or not), after every history, every enumerated (level, class): the macro returns normally and
+    the state afterwards is exactly that of the plain `Logging::log( id, msg)`, i.e. `deliver`
+    (`C14_deliver_means`): the pre-check never costs a message. -/
+theorem C14_macro_single_id (ops : List Op) (hops : ∀ op ∈ ops, op.Valid) (k : Nat) (m : Msg)
+    (hm : m.Valid) :
+    ∃ w, World.init.run ops = .ok w ∧ w.macroSend (2 ^ k) m = .ok (w.deliver (2 ^ k) m, none) ∧
+      ∃ b, w.discardById (2 ^ k) m.level = .ok (.val b) := by
+  obtain ⟨w, h1, h2, _⟩ := World.run_inv ops World.init World.init_inv hops
+  exact ⟨w, h1, World.macroSend_single w _ m h2 hm (h2.single_bit k),
+    World.discardById_single w _ m h2 (h2.single_bit k)⟩
+
+/-- **Exactly when LOG_LEVEL / `discard_by_level( ids, …)` throw**, any id set, after every
+    history: if `ids` overlaps no log's id without being equal to it, the macro returns normally
+    with the state of the plain send; if `ids` contains the id of some log *and another bit*
+    (a set of two or more ids, the case log_macros.hpp excludes), both throw `runtime_error`
+    ("only one single log id may be specified") and nothing is delivered — although
+    `Logging::log( ids, msg)` with the same arguments delivers (`C14_delivery`).  The two cases are
+    complementary. -/
+theorem C14_macro_exact (ops : List Op) (hops : ∀ op ∈ ops, op.Valid) (ids : Nat) (m : Msg)
+    (hm : m.Valid) :
+    ∃ w, World.init.run ops = .ok w ∧
+      ((∀ e ∈ w.logs, ids &&& e.id ≠ 0 → ids = e.id) →
+        w.macroSend ids m = .ok (w.deliver ids m, none) ∧
+        ∃ b, w.discardById ids m.level = .ok (.val b)) ∧
+      ((∃ e ∈ w.logs, ids &&& e.id ≠ 0 ∧ ids ≠ e.id) →
+        w.macroSend ids m = .ok (w, some .runtime_error) ∧
+        w.discardById ids m.level = .ok (.threw .runtime_error)) := by
+  obtain ⟨w, h1, h2, _⟩ := World.run_inv ops World.init World.init_inv hops
+  refine ⟨w, h1, ?_, ?_⟩
+  · intro h
+    exact ⟨World.macroSend_single w ids m h2 hm h, World.discardById_single w ids m h2 h⟩
+  · intro h
+    exact ⟨World.macroSend_overlap w ids m h2 h, World.discardById_overlap w ids m.level h2 h⟩
+
+/-- The excluded case is real (model side of the replayed witness
+    `corpus/logfilter/macro_two_ids.ops`): in a reachable two-log state the macro with both ids
+    throws and delivers nothing, while the plain send delivers the same message to two
+    destinations.  This is the documented restriction of the macro, not a loss the pre-check
+    causes silently; it is why the MANIFEST claims "never loses a message" only for a single id. -/
+theorem C14_macro_two_ids_throws :
+    exampleWorld.Inv ∧ exampleWorld.macroSend 3 ⟨3, 6⟩ = .ok (exampleWorld, some .runtime_error) ∧
+    ((exampleWorld.deliver 3 ⟨3, 6⟩).logs.map fun e => e.log.dests.map fun d => d.received.length) =
+      [[1, 0], [1]] :=
+  ⟨exampleWorld_inv, rfl, rfl⟩
 
 /-! ### non-vacuity: concrete instances of the hypotheses and of both outcomes -/
 
@@ -362,5 +497,34 @@ example : ((exampleWorld.deliver 3 ⟨3, 6⟩).logs.map fun e => e.log.dests.map
 example : exampleWorld.discardById 1 5 = .ok (.val true) := rfl
 example : exampleWorld.discardById 1 3 = .ok (.val false) := rfl
 example : exampleWorld.discardById 3 3 = .ok (.threw .runtime_error) := rfl
+
+/-- `ignore` re-points the cached level filter: setting `min 1` again under `ignore` keeps both
+    filters but `mpLevelFilter` (index 1 before) now points to the existing min-level filter
+    (index 0) — the filter list is unchanged, the object is not -/
+example : (Filters.set ⟨[.minLevel 1, .maxLevel 4], some 1⟩ .ignore (.min 3)) =
+    .ok (⟨[.minLevel 1, .maxLevel 4], some 0⟩, none) := rfl
+
+/-- targets of `exampleWorld`: log "a" designates its own filters, "a"/"y" the filters of its
+    second destination, "q" nothing; the hypotheses of `C14_duplicate_policy_on_the_world` hold
+    for the first (a max-level filter is set) -/
+example : exampleWorld.Designates (.log "a") exampleLogA.log.filters
+    (fun F' => { exampleWorld with logs := exampleWorld.logs.set 0 (exampleLogA.setFilters F') }) :=
+  .log "a" 0 exampleLogA rfl (by decide) (by intro k b hk; omega)
+example : exampleWorld.Designates (.dest "a" "y") exampleDestY.filters
+    (fun F' => { exampleWorld with logs := exampleWorld.logs.set 0 (exampleLogA.setDests (exampleLogA.log.dests.set 1 (exampleDestY.setFilters F'))) }) :=
+  .dest "a" "y" 0 exampleLogA 1 exampleDestY rfl (by decide) (by intro k b hk; omega) rfl (by decide)
+    (by
+      intro k b hk hb
+      have : k = 0 := by omega
+      subst this
+      cases hb
+      decide)
+example : exampleLogA.log.filters.setting (FilterSpec.max 2).ftype = some (.maxLevel 4) := rfl
+example : (FilterSpec.max 2).mk = .ok (.maxLevel 2) := rfl
+example : lastPolicy [.policy .replace, .newLog "a"] .ignore = .replace := rfl
+/-- the macro with a single id: existing log, unknown id -/
+example : exampleWorld.macroSend (2 ^ 0) ⟨3, 6⟩ = .ok (exampleWorld.deliver 1 ⟨3, 6⟩, none) := rfl
+example : exampleWorld.macroSend (2 ^ 5) ⟨3, 6⟩ = .ok (exampleWorld, none) := rfl
+example : ∃ e ∈ exampleWorld.logs, 3 &&& e.id ≠ 0 ∧ 3 ≠ e.id := ⟨exampleLogA, by simp [exampleWorld], by decide⟩
 
 end CelmaVerif.Props.C14
